@@ -187,7 +187,7 @@ def run_nrt_case(c):
     try:
         score = main.process(num(c['tail']))
         res = {'list': canon(score.list), 'raw': bytes(score.raw).hex(),
-               'end': fr(main.main_tt._m_seconds)}
+               'end': fr(main.main_tt._m_seconds), 'duration': fr(score.duration)}
     except Exception as e:
         res = {'exc': type(e).__name__ + ':' + str(e)[:200]}
     res['sends'] = log
